@@ -178,7 +178,10 @@ class RPCInterface:
         if not identifiers:
             self._raise(Faults.BAD_NAME, 'get_network_info',
                         f'identifier={identifier} is unknown to Supvisors')
-        return self.supvisors.mapper.instances[identifier].serial()
+        if len(identifiers) > 1:
+            self._raise(Faults.INCORRECT_PARAMETERS, 'get_network_info',
+                        f'multiple identifiers={identifiers} found for identifier={identifier}')
+        return self.supvisors.mapper.instances[identifiers[0]].serial()
 
     def get_all_instances_info(self) -> PayloadList:
         """ Get information about all **Supvisors** instances.
